@@ -25,6 +25,7 @@ pub fn inputs(prop: &str, r: &mut Rng, n: usize, tier: &str, out: &mut dyn Write
         "C06" => epoch::inputs_c06(r, n, tier, out),
         "C12" => epoch::inputs_c12(r, n, tier, out),
         "C07" => epoch::inputs_c07(r, n, tier, out),
+        "C17" => epoch::inputs_c17(r, n, tier, out),
         "C15" => epoch::inputs_c15(r, n, tier, out),
         "C16" => epoch::inputs_c16(r, n, tier, out),
         "C20" => epoch::inputs_c20(r, n, tier, out),
